@@ -447,6 +447,9 @@ class OrdinalCategoricalDissimilarity(PrecomputedCategoricalDissimilarity):
         if p is None:
             p = np.arange(len(labels), dtype=np.float32)
 
+        # positions are real numbers : differences of unsigned integers would wrap around
+        p = np.array(p, dtype=np.float64)
+
         if len(p) != len(labels):
             raise ValueError("Labels' and their associated numbers' iterables have not the same length")
 
